@@ -25,11 +25,11 @@ pub static DEF: PropDef = PropDef {
 	eval,
 	shrink,
 	rule: "run = caller history of 1-8 translate calls on one Translator (per call: 0-40 documents, or up to hundreds in the long-stream family, in JSON/MessagePack/YAML/TOML, slice or simulated producer, explicit format or detection, all separators the format allows, read schedules incl. reads ending exactly at / one byte around document ends, short-write consumers; boundary family: a padded document ends at 8192*m+d or 16384*m+d, d in -2..=2). Non-trivial: (>=2 calls or >=3 documents) and >=1 short read. Distinct = distinct (history bytes, formats, schedules).",
-	real: LIB_REAL,
-	stub: LIB_STUB,
+	real: &["xt library under the simulator (9 of 10 runs)", "the shipped debug and release binaries given several input files / stdin (1 of 10 runs)", "serde_json, serde_yaml, unsafe-libyaml, rmp, rmp-serde, toml, toml_edit"],
+	stub: &["producer/consumer/caller (library runs)", "byte transport of fds 0/1 and input files, mmap success (process runs: LD_PRELOAD interposer)"],
 	assumptions: &["the per-document expectation is xt's own translation of that document alone (slice, fault-free): value correctness is deliberately not claimed here", "documents that the target refuses when translated alone are not generated"],
-	expected_probes: &["family.mixed", "family.boundary", "family.long", "calls>=2", "detect_call", "r.short(reads beyond the first)", "w.short", "read_ends_at_document_end", "empty_call", "scalar_docs"],
-	needs_bins: false,
+	expected_probes: &["family.mixed", "family.boundary", "family.long", "calls>=2", "detect_call", "r.short(reads beyond the first)", "w.short", "read_ends_at_document_end", "empty_call", "scalar_docs", "p.spawn", "bin.debug", "bin.release"],
+	needs_bins: true,
 	watchdog_s: 60,
 };
 
@@ -169,7 +169,98 @@ fn padded_doc(f: Fmt, size: usize) -> Option<Vec<u8>> {
 	None
 }
 
+/// Process slice: one command-line invocation with several input files in mixed formats
+/// (format taken from the extension, detection for extension-less names, '-' for stdin).
+fn gen_proc(seed: u64, idx: u64) -> J {
+	use crate::procsim::{FileSpec, ProcCase, ReadPlan};
+	let mut r = Rng::derive(seed, "C03p", idx);
+	let to = *r.pick(&STREAM_FMTS);
+	let mut c = ProcCase { bin: if r.chance(1, 2) { "debug" } else { "release" }.to_owned(), ..Default::default() };
+	if to != Fmt::Json || r.chance(1, 3) {
+		c.args.push(format!("-t{}", to.letter()));
+	}
+	let n = r.range(2, 5);
+	let mut meta = vec![];
+	for i in 0..n {
+		let (call, ranges, _, f) = build_call(&mut r, to, 6, false);
+		let use_stdin = c.stdin.is_none() && r.chance(1, 6);
+		let with_ext = call.from.is_some();
+		if use_stdin && !with_ext {
+			c.stdin = Some(call.bytes.clone());
+			c.stdin_plan = Some(ReadPlan { sched: call.sched.clone(), ..Default::default() });
+			c.args.push("-".into());
+			meta.push(json!({"name": "-", "fmt": f.name(), "docs": ranges.iter().map(|(a, b)| json!([a, b])).collect::<Vec<_>>()}));
+			continue;
+		}
+		let name = if with_ext { format!("in{i}.{}", f.name()) } else { format!("in{i}") };
+		c.files.push(FileSpec { name: name.clone(), kind: "file".into(), bytes: call.bytes.clone(), plan: Some(ReadPlan { sched: call.sched.clone(), ..Default::default() }) });
+		c.args.push(name.clone());
+		meta.push(json!({"name": name, "fmt": f.name(), "docs": ranges.iter().map(|(a, b)| json!([a, b])).collect::<Vec<_>>()}));
+	}
+	c.nommap = r.chance(1, 3);
+	if r.chance(1, 3) {
+		c.wsched = gen::gen_sched(&mut r, 512);
+	}
+	c.params.insert("to".into(), json!(to.name()));
+	c.params.insert("inputs".into(), J::Array(meta));
+	c.to_json()
+}
+
+fn eval_proc(case: &J) -> Eval {
+	use crate::procsim;
+	let mut ev = Eval::default();
+	let Some(c) = procsim::ProcCase::from_json(case) else { return ev };
+	let to = c.params.get("to").and_then(J::as_str).and_then(Fmt::parse).unwrap_or(Fmt::Json);
+	ev.count("p.spawn", 1);
+	// Expected: concatenation of every document of every input translated alone.
+	let mut expected: Vec<u8> = vec![];
+	let mut ndocs = 0;
+	for m in c.params.get("inputs").and_then(J::as_array).cloned().unwrap_or_default() {
+		let name = m["name"].as_str().unwrap_or("");
+		let f = m["fmt"].as_str().and_then(Fmt::parse).unwrap_or(Fmt::Json);
+		let bytes: Vec<u8> = if name == "-" { c.stdin.clone().unwrap_or_default() } else { c.files.iter().find(|x| x.name == name).map(|x| x.bytes.clone()).unwrap_or_default() };
+		for d in m["docs"].as_array().cloned().unwrap_or_default() {
+			let (s, e) = (d[0].as_u64().unwrap_or(0) as usize, d[1].as_u64().unwrap_or(0) as usize);
+			if e > bytes.len() || s > e {
+				return ev;
+			}
+			let (v, out) = exec::t0(&bytes[s..e], Some(f), to);
+			ev.execs += 1;
+			if !v.is_ok() {
+				return ev;
+			}
+			expected.extend_from_slice(&out);
+			ndocs += 1;
+		}
+	}
+	let o = procsim::run(&c);
+	procsim::write_plan_note(&mut ev, &c, &o);
+	ev.key = crate::rng::fnv(case.to_string().as_bytes());
+	ev.trace = crate::rng::hash_str(&o.status());
+	if !procsim::proc_invariants(&mut ev, &c, &o) {
+		return ev;
+	}
+	let args = format!("{:?}", c.args);
+	if o.code != Some(0) {
+		ev.violate(format!("cli/call-failed/{}", to.name()), format!("xt {args}: every document of every input translates alone, but xt ended with {}: {:?}", o.status(), show(&o.stderr)));
+	} else {
+		if o.stdout != expected {
+			let d = first_diff(&o.stdout, &expected);
+			ev.violate(format!("cli/concat/{}", to.name()), format!("xt {args}: stdout ({} bytes) is not the concatenation of the {ndocs} per-document translations ({} bytes); first difference at byte {d}: {:?} vs {:?}", o.stdout.len(), expected.len(), show(&o.stdout[d.min(o.stdout.len())..]), show(&expected[d.min(expected.len())..])));
+		}
+		let fr = frame::frame(to, &o.stdout, true);
+		if fr.docs.len() != ndocs || !fr.tail.is_empty() || fr.malformed.is_some() {
+			ev.violate(format!("cli/framing/{}", to.name()), format!("xt {args}: an independent {} framing reader recovers {} documents (+{} trailing bytes), {ndocs} were supplied", to.name(), fr.docs.len(), fr.tail.len()));
+		}
+	}
+	ev.nontrivial = true;
+	ev
+}
+
 fn gen(seed: u64, idx: u64, t: Tier) -> J {
+	if idx % 10 == 9 {
+		return gen_proc(seed, idx);
+	}
 	let mut r = Rng::derive(seed, "C03", idx);
 	let to = *r.pick(&STREAM_FMTS);
 	let fam = r.below(100);
@@ -269,6 +360,9 @@ fn call_fmts(sc: &Scenario) -> Vec<Fmt> {
 }
 
 fn eval(case: &J) -> Eval {
+	if case["kind"].as_str() == Some("proc") {
+		return eval_proc(case);
+	}
 	let sc = parse(case);
 	let mut ev = Eval::default();
 	let ranges = doc_ranges(&sc);
@@ -358,6 +452,9 @@ fn eval(case: &J) -> Eval {
 }
 
 fn shrink(case: &J) -> Vec<J> {
+	if case["kind"].as_str() == Some("proc") {
+		return vec![];
+	}
 	let sc = parse(case);
 	let ranges = doc_ranges(&sc);
 	let fmts = call_fmts(&sc);
